@@ -15,9 +15,9 @@ PROPS['C17'] = dict(
         dict(name='gmf', variant='asan', harness='c17_conv.cpp', quick=800, thorough=15000),
         dict(name='mus', variant='asan', harness='c17_conv.cpp', quick=3000, thorough=60000),
         dict(name='xmi', variant='asan', harness='c17_conv.cpp', quick=2500, thorough=50000),
-        dict(name='memcheck-mus', variant='plain-d', harness='c17_conv.cpp', quick=800, thorough=16000, budget=1200, wall=3000, **{'as': 'mus'},
+        dict(name='memcheck-mus', variant='plain-d', harness='c17_conv.cpp', quick=800, thorough=16000, budget=150, wall=2400, **{'as': 'mus'},
              wrapper=['valgrind', '-q', '--error-exitcode=79', '--exit-on-first-error=yes', '--track-origins=no', '--leak-check=no']),
-        dict(name='memcheck-xmi', variant='plain-d', harness='c17_conv.cpp', quick=800, thorough=16000, budget=1200, wall=3000, **{'as': 'xmi'},
+        dict(name='memcheck-xmi', variant='plain-d', harness='c17_conv.cpp', quick=800, thorough=16000, budget=150, wall=2400, **{'as': 'xmi'},
              wrapper=['valgrind', '-q', '--error-exitcode=79', '--exit-on-first-error=yes', '--track-origins=no', '--leak-check=no']),
     ],
 )
